@@ -215,6 +215,7 @@ func (ex *Exec) store(st *State, p Value, v Value, pc *Term, pos token.Pos) {
 			}
 			ex.oblige("nil", "store "+fieldPathName(x.Root, x.Path), pos, pc, Neq(x.Ref, RefNil()), "pointer is not nil")
 			ex.guardedAccess(st, x, true, pc, pos)
+			v = ex.escapeSlice(st, v, pc)
 			if e := st.heapStore(x.Root, x.Path, x.Ref, v); e != "" {
 				ex.note("%s", e)
 			}
@@ -1147,4 +1148,25 @@ func sliceIsNil(s SliceV) *Term {
 		return Eq(s.ID, RefNil())
 	}
 	return False
+}
+
+// escapeSlice: a slice of a local array or of an array-typed field that is
+// stored into the heap is represented by a fresh dynamic array holding a copy
+// of the current content (later writes through either alias are not reflected
+// in the other: recorded as an abstraction).
+func (ex *Exec) escapeSlice(st *State, v Value, pc *Term) Value {
+	sl, ok := v.(SliceV)
+	if !ok || sl.St == StDyn {
+		return v
+	}
+	es, ok := scalarSort(sl.Elem)
+	if !ok {
+		return v
+	}
+	arr := ex.sliceArr(st, sl, 0, es)
+	id := ex.freshRef(st, pc, "escaped")
+	out := SliceV{St: StDyn, ID: id, Off: sl.Off, Len: sl.Len, Cap: sl.Cap, Elem: sl.Elem}
+	ex.setSliceArr(st, out, 0, arr)
+	ex.note("a slice of a local/field array stored in the heap is represented by a copy (aliasing between the two not modelled)")
+	return out
 }
